@@ -1,5 +1,5 @@
 //@unit zuc
-//@serves C08
+//@serves C08 C20
 //@source gm-zuc/src/lib.rs
 //@export ZS cells_ok z_init z_after z_ks abs lemma_ks_len
 //@assume u32::rotate_left == rotl32 (assume_specification)
